@@ -32,3 +32,11 @@ Example C14_refuted_v0 :
   exists es s, prun false (BAnd (CGe (TPlus TCounter (TConst 1)) TWorkers) (CLe TWorkers TMax)) 1 (pinit 1) es = Some s /\
                length (workers s) = 2.
 Proof. exists [EAccept; EDecide]. eexists. split; vm_compute; reflexivity. Qed.
+
+(* tie: the functions this property's model describes by hand (not by translation) still have the pinned text; an
+   edit to one of them breaks this obligation and sends the check searching for a failing input *)
+From VL Require Import ShapeFacts.
+From VLG Require Import ShapeGen.
+Theorem C14_modelled_code_is_the_pinned_text : shapes_for_C14 = true.
+Proof. exact shapes_C14_ok. Qed.
+Print Assumptions C14_modelled_code_is_the_pinned_text.
